@@ -1,15 +1,32 @@
 #!/bin/bash
-# tools/seeded_all.sh [tier]  - run every seeded change under /verif/seeded
-# against the check named in its meta.json ("detected_by" prefix) and report.
+# tools/seeded_all.sh [tier] [jobs]  - run every seeded change under
+# /verif/seeded against the check named in its meta.json ("detected_by"
+# prefix) and report.  Runs JOBS scratch builds in parallel (default 4), each
+# with its own target directory under /tmp (removed at the end).
 VERIF="$(cd "$(dirname "${BASH_SOURCE[0]}")/.." && pwd)"
-TIER="${1:-quick}"; miss=0; n=0
-for d in "$VERIF"/seeded/*/; do
-  id="$(basename "$d")"
-  prop="$(python3 -c "import json,sys;m=json.load(open('$d/meta.json'));print('SKIP' if m['detected_by'].startswith('NOT') else m['detected_by'].split(':')[0])")"; if [ "$prop" = SKIP ]; then echo "SCOPED-OUT $id (see meta.json: why_not)"; continue; fi
-  out="$(MUT_TARGET="${MUT_TARGET:-/tmp/pkgsim-mut-target}" "$VERIF/tools/mutant.sh" "$d/patch.diff" "$prop" --tier "$TIER" 2>&1)"; rc=$?
+TIER="${1:-quick}"; JOBS="${2:-4}"
+OUT="$(mktemp -d /tmp/pkgsim-seeded-all.XXXXXX)"
+trap 'rm -rf "$OUT" /tmp/pkgsim-mut-target-sa-*' EXIT
+one() {
+  d="$1"; slot="$2"; id="$(basename "$d")"
+  prop="$(python3 -c "import json,sys;m=json.load(open('$d/meta.json'));print('SKIP' if m['detected_by'].startswith('NOT') else m['detected_by'].split(':')[0])")"
+  if [ "$prop" = SKIP ]; then echo "SCOPED-OUT $id (see meta.json: why_not)"; return; fi
+  out="$(MUT_TARGET="/tmp/pkgsim-mut-target-sa-$slot" "$VERIF/tools/mutant.sh" "$d/patch.diff" "$prop" --tier "$TIER" 2>&1)"; rc=$?
   sigs="$(echo "$out" | grep '^violation:' | sed -E 's/.*signature=([^ ]+).*/\1/' | cut -c1-60 | sort -u | tr '\n' ',')"
-  n=$((n+1))
-  if [ $rc -eq 1 ]; then echo "CAUGHT  $id by $prop: $sigs"; else echo "MISSED  $id by $prop (rc=$rc)"; miss=$((miss+1)); fi
+  if [ $rc -eq 1 ]; then echo "CAUGHT  $id by $prop: $sigs"; else echo "MISSED  $id by $prop (rc=$rc)"; fi
+}
+export -f one; export VERIF TIER
+i=0
+for d in "$VERIF"/seeded/*/; do
+  slot=$((i % JOBS)); i=$((i+1))
+  echo "${d%/}" >> "$OUT/list.$slot"
 done
-echo "seeded changes: $n, missed: $miss"
-[ $miss -eq 0 ]
+for slot in $(seq 0 $((JOBS-1))); do
+  [ -f "$OUT/list.$slot" ] || continue
+  ( while read -r d; do one "$d" "$slot"; done < "$OUT/list.$slot" > "$OUT/res.$slot" 2>&1 ) &
+done
+wait
+cat "$OUT"/res.* | sort -k2 -V
+n=$(cat "$OUT"/res.* | grep -c -E '^(CAUGHT|MISSED)'); miss=$(cat "$OUT"/res.* | grep -c '^MISSED'); scoped=$(cat "$OUT"/res.* | grep -c '^SCOPED-OUT')
+echo "seeded changes run: $n, missed: $miss, scoped out: $scoped"
+[ "$miss" -eq 0 ]
